@@ -92,7 +92,7 @@ def rule_declare_path(check):
     uses = [n for n in hir.calls_in(nm.body, name="get_dd_local_variable_prefix")]
     check.expect(len(uses) == 1, "SIBLING", "SIBLING/name-prefix", hir.loc(nm.rec), "created names start with get_dd_local_variable_prefix(prefix)", "created names no longer derive from get_dd_local_variable_prefix")
     check.rule("SIBLING", "the created name and the refused prefix come from the same helper and the same configured prefix")
-    dup = prog.fn("block_transform_visitor::variables_contains_possible_duplicate")
+    dup, dup_calls = _dup_test(prog, f)
     uses2 = [n for n in hir.calls_in(dup.body, name="get_dd_local_variable_prefix")]
     sw = [n for n in hir.calls_in(dup.body, name="starts_with")]
     ok = len(uses2) == 1 and len(sw) == 1 and (hir.place(hir.call_args(sw[0])[0]) or "").endswith(".sym")
@@ -104,11 +104,29 @@ def rule_declare_path(check):
     for n in decl:
         pass
     vbs = f
-    d = list(hir.calls_in(vbs.body, name="variables_contains_possible_duplicate"))
+    d = dup_calls
     newp = list(hir.calls_in(vbs.body, name="new"))
-    p1 = [hir.place(hir.call_args(x)[1]) for x in d]
     p2 = [hir.place(hir.call_args(x)[0]) for x in newp if "DefaultIdentProvider" in (x["callee"]["path"])]
+    if (dup.rec.get("self_ty") or "").split("<")[0].endswith("DefaultIdentProvider"):
+        # a method of the provider: the prefix it tests is the provider's own
+        inner = [hir.place(hir.call_args(x)[0]) or "" for x in hir.calls_in(dup.body, name="get_dd_local_variable_prefix")]
+        p1 = p2 if inner and all(i_.endswith(".local_var_prefix") and i_.split(".")[0].startswith("self#") for i_ in inner) else ["?"]
+    else:
+        p1 = [hir.place(hir.call_args(x)[1]) for x in d if len(hir.call_args(x)) > 1]
     check.expect(bool(p1) and bool(p2) and set(p1) == set(p2), "SIBLING", "SIBLING/same-prefix", hir.loc(vbs.rec), "provider and collision check use the same configured prefix %s" % p1, "provider prefix %s differs from collision-check prefix %s" % (p2, p1))
+
+
+def _dup_test(prog, vbs):
+    """(function, call nodes): the collision test = the crate predicate whose truth leads to cancel_visit
+    in the block driver (found by role, whatever it is called and wherever it lives)"""
+    for n in hir.calls_in(vbs.body, name="cancel_visit"):
+        for a in gate.atoms_at(vbs, n):
+            if a[0] == "call" and a[4] is True and isinstance(a[5], dict):
+                g = prog.resolve_local(a[5])
+                if g is not None and (g.rec.get("ret") or "") == "bool":
+                    calls = [x for x in hir.walk(vbs.body) if hir.is_call(x) and prog.resolve_local(x) is g]
+                    return g, calls
+    raise AnchorMissing("the collision test that leads to cancel_visit in visit_mut_block_stmt")
 
 
 def _chain_names(n):
@@ -396,11 +414,12 @@ def rule_refusal(check):
     graph = AdtGraph(prog.adts)
     f = [x for x in overrides_of(prog, BTV) if x.name == "visit_mut_block_stmt"][0]
     tr = Traversal(prog, f, graph)
+    dupfn, dup_calls = _dup_test(prog, f)
     n_decl = 0
     for p in tr.paths(f.body, tr.initial_env()):
         calls = [e for e in p.effects if e["kind"] == "call" and e.get("depth") == 0]
         names = [e["name"] for e in calls]
-        dup = [c for c in p.conds if (hir.cond_call(c) or [None])[0] == "variables_contains_possible_duplicate"]
+        dup = [c for c in p.conds if hir.cond_call(c) and prog.resolve_local(hir.cond_call(c)[4]) is dupfn]
         if "insert_variable_declaration" in names:
             n_decl += 1
             ok = bool(dup) and all(hir.cond_call(c)[3] is False for c in dup) and "cancel_visit" not in names
@@ -410,8 +429,13 @@ def rule_refusal(check):
             ok = "cancel_visit" in names and p.term
             check.expect(ok, R, R + "/cancel-on-clash", hir.loc(f.rec), "clash cancels the visit and returns", "a name clash does not cancel the rewrite")
     check.floor(R, "declaring paths", n_decl, 1)
-    for d in hir.calls_in(f.body, name="variables_contains_possible_duplicate"):
+    for d in dup_calls:
         a0 = hir.place(hir.call_args(d)[0]) or ""
+        if not a0.endswith(".variable_decl"):
+            # the collection may be read inside the predicate (a method of the provider)
+            inner = [hir.place(hir.peel(x["recv"])) or "" for x in dupfn.nodes() if x.get("k") == "MethodCall" and x["method"] in ("iter", "contains", "into_iter")]
+            if any(i_.endswith(".variable_decl") for i_ in inner) and "ident_provider" in a0:
+                a0 = a0 + ".variable_decl"
         check.expect(a0.endswith(".variable_decl"), R, R + "/checks-registered-variables", hir.loc(d), "collision check reads the provider's variable_decl", "collision check reads %s" % a0)
         # must be evaluated after the operation visitor has run
         vis = [x for x in hir.calls_in(f.body, name="visit_mut_children_with") if "OperationTransformVisitor" in tr.visitor_type_of(hir.call_args(x)[1])]
@@ -422,7 +446,7 @@ def rule_refusal(check):
     rv = _impl_method(prog, "DefaultIdentProvider", "register_variable")
     ok = any(hir.callee_name(x) in ("insert", "push") and (hir.place(hir.call_args(x)[0]) or "").endswith(".variable_decl") and not rv.conds_at(x) for x in hir.walk(rv.body) if hir.is_call(x))
     check.expect(ok, R, R + "/register_variable", hir.loc(rv.rec), "register_variable stores unconditionally", "register_variable does not store every identifier")
-    dup = prog.fn("block_transform_visitor::variables_contains_possible_duplicate")
+    dup = dupfn
     anyc = [x for x in hir.calls_in(dup.body, name="any")]
     ok = len(anyc) == 1 and hir.peel(dup.body) is anyc[0] or (len(anyc) == 1 and anyc[0] in [hir.peel(r) for r in return_exprs(dup.body)])
     conj = []
